@@ -274,9 +274,9 @@ class Check:
                 s.inconclusive.append('%s: known finding %s: engine witness does not reproduce natively (%s)' % (harness, kf, details))
 
     # ------------------------------------------------------------------ engine K (Kani)
-    def run_kani(s, harness, unwind=None, time_cap=600, stubs=True, expect_fail_kf=None, bounds=None):
+    def run_kani(s, kharness, native_harness, time_cap=600, bounds=None):
         from kanilib import run_kani
-        rep = run_kani(s, harness, unwind, time_cap, stubs, expect_fail_kf, bounds)
+        rep = run_kani(s, kharness, native_harness, None, time_cap, (), bounds)
         s.kani_reports.append(rep)
         return rep
 
